@@ -737,7 +737,10 @@ func (sp *Spec) ParseContractFile(path, defaultPkg string) error {
 				cur.Pure = true
 			}
 			if c.Label == "" {
-				c.Label = fmt.Sprintf("%s%d", kw[:3], d.line)
+				// unlabelled clauses are named by their ordinal among the clauses of the same kind in this contract
+				// (stable when unrelated lines move)
+				n := map[string]int{"requires": len(cur.Requires), "ensures": len(cur.Ensures), "as-is": len(cur.AsIs), "rely": len(cur.Rely), "guarantee": len(cur.Guarantee), "pure-def": 1}[kw]
+				c.Label = fmt.Sprintf("%s_%d", kw[:3], n)
 			}
 		case strings.HasPrefix(l, "loop "):
 			if cur == nil {
@@ -752,10 +755,10 @@ func (sp *Spec) ParseContractFile(path, defaultPkg string) error {
 				return err
 			}
 			c.Loop, _ = strconv.Atoi(m[1])
-			if c.Label == "" {
-				c.Label = fmt.Sprintf("inv%d", d.line)
-			}
 			cur.Invariants = append(cur.Invariants, c)
+			if c.Label == "" {
+				c.Label = fmt.Sprintf("inv_%d", len(cur.Invariants))
+			}
 		case strings.HasPrefix(l, "modifies "):
 			if cur == nil {
 				return fail("clause outside func")
@@ -855,7 +858,7 @@ func (sp *Spec) ParseContractFile(path, defaultPkg string) error {
 				return err
 			}
 			if c.Label == "" {
-				c.Label = fmt.Sprintf("L%d", d.line)
+				c.Label = fmt.Sprintf("L_%d", len(sp.Lemmas)+1)
 			}
 			sp.Lemmas = append(sp.Lemmas, &Lemma{Label: c.Label, E: c.E, Text: c.Text, Pkg: pkg, Axiom: ax, Using: c.Using, File: path, Props: props})
 			cur = nil
